@@ -34,7 +34,7 @@ impl RunCfg {
             "cache_ad": self.cache_ad, "cache_data": self.cache_data, "pool": self.pool,
             "build": crate::seam::FLAVOUR, "backend": self.backend,
             "doc": { "id_pool": self.doc.id_pool, "nasty": self.doc.nasty, "floats": self.doc.floats,
-                     "max_elems": self.doc.max_elems, "kinds": self.doc.kinds, "nested": self.doc.nested, "bang_ids": self.doc.bang_ids, "root_ids": self.doc.root_ids },
+                     "max_elems": self.doc.max_elems, "kinds": self.doc.kinds, "nested": self.doc.nested, "bang_ids": self.doc.bang_ids, "root_ids": self.doc.root_ids, "chars": self.doc.chars },
         })
     }
     pub fn from_json(v: &Value) -> Result<RunCfg, String> {
@@ -54,7 +54,7 @@ impl RunCfg {
             cache_data: u("cache_data")? as u32,
             pool: u("pool").unwrap_or(4) as usize,
             backend: v.get("backend").and_then(|x| x.as_str()).unwrap_or("sim").to_string(),
-            doc: DocCfg { id_pool: du("id_pool"), nasty: db("nasty"), floats: db("floats"), max_elems: du("max_elems"), kinds: db("kinds"), nested: db("nested"), bang_ids: db("bang_ids"), root_ids: db("root_ids") },
+            doc: DocCfg { id_pool: du("id_pool"), nasty: db("nasty"), floats: db("floats"), max_elems: du("max_elems"), kinds: db("kinds"), nested: db("nested"), bang_ids: db("bang_ids"), root_ids: db("root_ids"), chars: db("chars") },
         })
     }
 }
@@ -323,7 +323,7 @@ impl World {
             Op::Meld { r, from } => self.op_meld(*r, *from),
             Op::Refresh { r } => self.op_refresh(*r, 0),
             Op::Reload { r } => self.op_refresh(*r, 1),
-            Op::ReloadUntil { r, sel } => self.op_reload_until(*r, *sel),
+            Op::ReloadUntil { r, sel, of, extra } => self.op_reload_until(*r, *sel, *of, *extra),
             Op::Resolve { r, obj_sel, leaf_sel } => self.op_resolve(*r, *obj_sel, *leaf_sel),
             Op::Unstage { r } => self.op_unstage(*r),
             Op::StageRoundTrip { r } => self.op_stage_roundtrip(*r),
@@ -504,7 +504,7 @@ impl World {
             }
         }
         self.bump("probe.converge");
-        if self.is(&["C01", "C07", "C19", "C06"]) {
+        if self.is(&["C01", "C07", "C19", "C06", "C09"]) {
             if quiet_round.is_none() {
                 viol!(self, "exchange-terminates", "converge-not-quiet", "after {} rounds of all-pairs meld + refresh replicas still learn new items", n + 2);
             }
@@ -1085,6 +1085,9 @@ impl World {
         match res {
             Ok(()) => {
                 self.replicas[r].seen = keys_now;
+                if self.replicas[r].time_travel && kind == 0 {
+                    self.bump("probe.refresh_after_time_travel");
+                }
                 self.replicas[r].time_travel = false;
                 self.replicas[r].fresh = true;
                 self.early_block_status_check(r, api_name)?;
@@ -1152,20 +1155,53 @@ impl World {
         }
     }
 
-    fn op_reload_until(&mut self, r: usize, sel: u32) -> Res {
-        if self.replicas[r].checkpoints.is_empty() {
+    fn op_reload_until(&mut self, r: usize, sel: u32, of: usize, extra: u32) -> Res {
+        let of = if of < self.replicas.len() { of } else { r };
+        if self.replicas[of].checkpoints.is_empty() {
             return Ok(());
         }
-        let n = self.replicas[r].checkpoints.len();
+        let n = self.replicas[of].checkpoints.len();
         // u32::MAX selects the newest checkpoint
-        let cp = self.replicas[r].checkpoints[if sel == u32::MAX { n - 1 } else if sel == u32::MAX - 1 { n.saturating_sub(2) } else { sel as usize % n }].clone();
+        let idx = if sel == u32::MAX { n - 1 } else if sel == u32::MAX - 1 { n.saturating_sub(2) } else { sel as usize % n };
+        let mut cp = self.replicas[of].checkpoints[idx].clone();
         if cp.heads.is_empty() {
             return Ok(());
+        }
+        let mut requested = cp.heads.clone();
+        if extra > 0 && idx > 0 {
+            // a hand-built request: the heads of an older head set in addition (ancestors of the
+            // chosen ones, since what a replica has applied only grows)
+            let older = self.replicas[of].checkpoints[(extra as usize - 1) % idx].heads.clone();
+            requested.extend(older);
+        }
+        if of != r || requested != cp.heads {
+            // a head set another replica had, or a redundant request: it must be fully present here,
+            // and its state is the one determined by the blocks (the reference interpreter says which
+            // blocks are the heads of that state)
+            let items = self.replicas[r].disk.items();
+            let full = RefState::from_items(&items);
+            if !requested.iter().all(|h| full.complete.contains(h)) {
+                return Ok(());
+            }
+            let st = RefState::from_items_until(&items, Some(&requested));
+            if st.heads != cp.heads {
+                return Ok(()); // not the state of that checkpoint (cannot happen while applied sets only grow)
+            }
+            if of != r {
+                cp.revs.clear();
+                self.bump("probe.reload_until_foreign_heads");
+            }
+            if requested != cp.heads {
+                self.bump("probe.reload_until_redundant_anchors");
+            }
+        }
+        if self.replicas[r].time_travel {
+            self.bump("probe.reload_until_consecutive");
         }
         let m = self.live(r);
         let staging = self.call("has_staging", || m.has_staging())?;
         let before = self.digest_of(r)?;
-        let ids = delta_ids(&cp.heads);
+        let ids = delta_ids(&requested);
         let res = self.call("reload_until", || m.reload_until(&ids))?;
         self.replicas[r].disk.take_log();
         if staging {
@@ -1179,7 +1215,7 @@ impl World {
         }
         if let Err(e) = res {
             if self.is(&["C14"]) {
-                viol!(self, "time-travel", "reload-until-err", "reload_until({:?}) failed: {}", cp.heads, e);
+                viol!(self, "time-travel", "reload-until-err", "reload_until({:?}) failed: {}", requested, e);
             }
             return Err(Stop::Inconclusive(format!("reload_until failed: {}", e)));
         }
@@ -1200,7 +1236,7 @@ impl World {
         if self.is(&["C14"]) {
             let after = self.digest_of(r)?;
             if after != cp.digest {
-                viol!(self, "time-travel-equals-checkpoint", "timetravel-differs", "reload_until({:?}) differs from what the replica showed when these were its heads: {}", cp.heads, diff_digest(&cp.digest, &after));
+                viol!(self, "time-travel-equals-checkpoint", "timetravel-differs", "reload_until({:?}) differs from what the replica showed when these were its heads: {}", requested, diff_digest(&cp.digest, &after));
             }
             let st = RefState::from_items_until(&self.replicas[r].disk.items(), Some(&cp.heads));
             self.compare_with_ref(r, &after, &st, "reload_until")?;
@@ -1213,10 +1249,10 @@ impl World {
                 Ok(m2) => {
                     let d2 = digest(&m2).map_err(|c| self.crash("digest(new_until)", c))?;
                     if d2 != cp.digest {
-                        viol!(self, "time-travel-equals-checkpoint", "new-until-differs", "new_until({:?}) differs from the checkpoint: {}", cp.heads, diff_digest(&cp.digest, &d2));
+                        viol!(self, "time-travel-equals-checkpoint", "new-until-differs", "new_until({:?}) differs from the checkpoint: {}", requested, diff_digest(&cp.digest, &d2));
                     }
                 }
-                Err(e) => viol!(self, "time-travel", "new-until-err", "new_until({:?}) failed: {}", cp.heads, e),
+                Err(e) => viol!(self, "time-travel", "new-until-err", "new_until({:?}) failed: {}", requested, e),
             }
         }
         Ok(())
@@ -1422,7 +1458,20 @@ impl World {
                 viol!(self, "stage-replay-restores", "replay-differs", "export, discard and replay did not restore the staged state: {}\n before={}\n after={}", diff_digest(&s1, &s2), trunc(&s1), trunc(&s2));
             }
             let exp2 = self.call("stage", || self.live(r).stage())?;
-            let (c1, c2) = (canon_stage(&exp), exp2.map(|e| canon_stage(&e)).unwrap_or(Value::Null));
+            let (mut c1, c2) = (canon_stage(&exp), exp2.map(|e| canon_stage(&e)).unwrap_or(Value::Null));
+            if c1 != c2 {
+                // an object that a pack in storage already holds (the pack an interrupted commit left
+                // behind) need not be staged again: the export may lack exactly such objects
+                let durable = RefState::from_items(&self.replicas[r].disk.items()).objects;
+                let o2 = c2.get("o").and_then(|o| o.as_object()).cloned().unwrap_or_default();
+                if let Some(o1) = c1.get_mut("o").and_then(|o| o.as_object_mut()) {
+                    o1.retain(|k, _| o2.contains_key(k) || !durable.contains_key(k));
+                    if o1.is_empty() && c2.get("o").is_none() {
+                        c1.as_object_mut().unwrap().remove("o");
+                        self.bump("probe.replayed_stage_objects_already_durable");
+                    }
+                }
+            }
             if c1 != c2 {
                 viol!(self, "stage-replay-restores", "replay-export-differs", "the staged export after replay differs: {} vs {}", trunc(&c1), trunc(&c2));
             }
